@@ -57,6 +57,7 @@ type cmafIngester struct {
 	asset          *asset
 	repsData       []cmafRepData
 	nextSegTrigger chan struct{}
+	done           chan struct{} // closed when the session loop has ended
 	state          ingesterState
 	report         []string
 }
@@ -179,6 +180,7 @@ func (cm *cmafIngesterMgr) NewCmafIngester(req CmafIngesterSetup) (nr uint64, er
 		repsData:       repsData,
 		state:          ingesterStateNotStarted,
 		nextSegTrigger: make(chan struct{}),
+		done:           make(chan struct{}),
 	}
 	if c.dur != nil {
 		c.nrSegsToSend = m.Ptr(*c.dur * 1000 / asset.SegmentDurMS)
@@ -224,6 +226,7 @@ func (c *cmafIngester) start(ctx context.Context) {
 
 	defer func() {
 		c.state = ingesterStateStopped
+		close(c.done)
 	}()
 
 	// Finally we should send off the init segments
@@ -441,8 +444,12 @@ func (c *cmafIngester) start(ctx context.Context) {
 	//
 }
 
+// triggerNextSegment triggers the next segment in test mode. It returns directly if the session has ended.
 func (c *cmafIngester) triggerNextSegment() {
-	c.nextSegTrigger <- struct{}{}
+	select {
+	case c.nextSegTrigger <- struct{}{}:
+	case <-c.done:
+	}
 }
 
 func (c *cmafIngester) dest() string {
